@@ -1,6 +1,7 @@
 import LarkVerif.EarleyExec
 import LarkVerif.EarleyExpected
 import LarkVerif.LR0Viable
+import LarkVerif.LRViable
 import LarkVerif.LRComplete
 /-! # C08 — rejections happen at the first offending position -/
 namespace Props.C08
@@ -57,5 +58,28 @@ theorem lalr_shifted_terminal_is_legal {G : EarleyProto.Grammar} {A : LR0.Auto} 
     (hs : r.rhs[d]? = some (EarleyProto.Sym.t a)) {u : List Nat} (hu : EarleyProto.DerivesSeq G γ u) :
     ∃ w, EarleyProto.DerivesSeq G [EarleyProto.Sym.nt start] (u ++ a :: w) :=
   LR0.shift_symbol_viable h (EarleyProto.productiveB_sound hP) h0 hstart hr hin hs hu
+
+/-- **LALR driver: a token it accepts can legally come next** (what `accepts()` finds by trial feeding).  For a table passing `TableSafe` whose
+    shift/goto entries are the transitions of an automaton passing `checkLR0`, over a grammar with a passing productivity certificate: if
+    `feed_token` on `t` succeeds from a configuration reached by consuming `consumed`, some sentence begins with `consumed ++ [t]` — whatever the
+    lookahead sets are. -/
+theorem lalr_accepted_terminal_is_legal {G : EarleyProto.Grammar} {T : LRProto.Table} {A : LR0.Auto} {s0 start : Nat}
+    (hT : LRProto.TableSafe G T s0) (h : LR0.checkLR0 G A = true) (order : List EarleyProto.Rule) (hP : EarleyProto.productiveB G order = true)
+    (h0 : T.start < A.items.length) (hstart : ∀ x ∈ A.kernelOf T.start, x.2 = 0 ∧ x.1.lhs = start ∧ x.1 ∈ G.rules)
+    (hne : ∀ q, q < A.items.length → A.kernelOf q ≠ []) (hTA : LRProto.TableOf T A)
+    {cfg cfg' : LRProto.Config} {consumed : List Nat} (hinv : LRProto.Inv G T cfg consumed) {t fuel : Nat}
+    (hfeed : LRProto.reduceLoop T t false fuel cfg = LRProto.Outcome.shifted cfg') :
+    ∃ w, EarleyProto.DerivesSeq G [EarleyProto.Sym.nt start] (consumed ++ t :: w) :=
+  LRProto.fed_token_is_legal hT h (EarleyProto.productiveB_sound hP) h0 hstart hne hTA hinv hfeed
+
+/-- **LALR driver: correct-prefix property.** Whatever the driver has consumed without raising is a prefix of a sentence — so `UnexpectedToken`
+    is raised no later than at the first token after which no sentence is possible (with `lalr_viable_prefix_shifts`: exactly there). -/
+theorem lalr_consumed_is_viable_prefix {G : EarleyProto.Grammar} {T : LRProto.Table} {A : LR0.Auto} {start : Nat}
+    (h : LR0.checkLR0 G A = true) (order : List EarleyProto.Rule) (hP : EarleyProto.productiveB G order = true)
+    (h0 : T.start < A.items.length) (hstart : ∀ x ∈ A.kernelOf T.start, x.2 = 0 ∧ x.1.lhs = start ∧ x.1 ∈ G.rules)
+    (hne : ∀ q, q < A.items.length → A.kernelOf q ≠ []) (hTA : LRProto.TableOf T A)
+    {cfg : LRProto.Config} {consumed : List Nat} (hinv : LRProto.Inv G T cfg consumed) :
+    ∃ w, EarleyProto.DerivesSeq G [EarleyProto.Sym.nt start] (consumed ++ w) :=
+  LRProto.consumed_is_viable_prefix h (EarleyProto.productiveB_sound hP) h0 hstart hne hTA hinv
 
 end Props.C08
